@@ -199,13 +199,23 @@ impl<'a, I: Iterator<Item = Item>, F: StreamFilter + 'a> Iterator for Compaction
                     let drop_weak_tombstone = peeked.key.value_type == ValueType::Value
                         && head.key.value_type == ValueType::WeakTombstone;
 
+                    if drop_weak_tombstone {
+                        // NOTE: Only the weak tombstone and the value it deletes cancel each other out,
+                        // older versions (e.g. an older weak tombstone) have to stay, because they may
+                        // still shadow data in lower levels
+                        #[expect(clippy::expect_used, reason = "we just peeked the item")]
+                        let dropped = fail_iter!(self.inner.next().expect("peeked item should exist"));
+
+                        if let Some(watcher) = &mut self.dropped_callback {
+                            watcher.on_dropped(&dropped);
+                        }
+
+                        continue;
+                    }
+
                     // NOTE: Next item is expired,
                     // so the tail of this user key is entirely expired, so drain it all
                     fail_iter!(self.drain_key(&head.key.user_key));
-
-                    if drop_weak_tombstone {
-                        continue;
-                    }
                 }
             } else if head.is_tombstone() && self.evict_tombstones {
                 continue;
